@@ -26,7 +26,7 @@ import workflows.runtime.control_loop as cl_mod
 from llama_agents.server._runtime.persistence_runtime import handler_status_from_exit_command
 from workflows import Context, Workflow, step
 from workflows.errors import WorkflowCancelledByUser, WorkflowTimeoutError
-from workflows.events import Event, StartEvent, StopEvent
+from workflows.events import Event, HumanResponseEvent, StartEvent, StopEvent
 from workflows.retry_policy import retry_policy, stop_after_attempt, wait_fixed
 from workflows.runtime.control_loop import _reduce_tick, replay_ticks_stream, rewind_in_progress
 from workflows.runtime.types.commands import CommandQueueEvent, CommandRunWorker
@@ -423,6 +423,10 @@ class Resp13b(Event):
     pass
 
 
+class Resp13c(HumanResponseEvent):
+    v: int = 0
+
+
 def _make_w(kind: int):
     """0 chain, 1 chain whose s1 fails once (retry after 1 s), 2 fan-out + collect, 3 a step parked in wait_for_event(timeout=1)
     that turns the TimeoutError into its result (the run is announced idle while it waits: the handler row is stamped and un-stamped)"""
@@ -440,25 +444,53 @@ def _make_w(kind: int):
             except asyncio.TimeoutError:
                 return StopEvent(result="timeout")
 
+    if kind == 4:
+        return WaitA(timeout=None)
     return WaitT(timeout=None)
 
 
+class WaitA(Workflow):
+    """a step parked in wait_for_event (no timeout) that a client answers at t = 1: the answer is accepted by the run (its add_event tick
+    is persisted) before the woken step has produced its result"""
+
+    @step
+    async def s0(self, ctx: Context, ev: StartEvent) -> StopEvent:
+        a = await ctx.wait_for_event(Resp13c, waiter_id="w", timeout=None)
+        return StopEvent(result="answered:%d" % a.v)
+
+
+NKIND13 = 5
 _FIRSTW = {}
 
 
 def _first_w(kind: int):
     if kind not in _FIRSTW:
-        _FIRSTW[kind] = native(run_first_recording, lambda: _make_w(kind))
+        if kind == 4:
+            _FIRSTW[kind] = native(run_first_recording, lambda: _make_w(kind), sends=[(1, 42)], make_event=lambda p: Resp13c(v=p))
+        else:
+            _FIRSTW[kind] = native(run_first_recording, lambda: _make_w(kind))
     return _FIRSTW[kind]
 
 
 def n_writes(kind: int) -> int:
-    return len(_first_w(conc(kind, 0, 3))["writes"])
+    return len(_first_w(conc(kind, 0, NKIND13 - 1))["writes"])
+
+
+def answer_persisted(kind: int, k: int) -> bool:
+    """kind 4: the client's answer is among the persisted ticks (an answer that never reached the store belongs to the dead process'
+    client, who gets an error and retries: not 'accepted')"""
+    kind, k = conc(kind, 0, NKIND13 - 1), conc(k, 1, 40)
+    if kind != 4:
+        return True
+    for t in native(ticks_in, _first_w(kind)["writes"][:k]):
+        if t.get("type") == "add_event" and "Resp13c" in str(t.get("event")):
+            return True
+    return False
 
 
 def prefix_has_tick(kind: int, k: int) -> bool:
     """the statement is about stops 'after any persisted tick': a prefix without a tick is a start request that never took off"""
-    kind, k = conc(kind, 0, 3), conc(k, 1, 40)
+    kind, k = conc(kind, 0, NKIND13 - 1), conc(k, 1, 40)
     return len(native(ticks_in, _first_w(kind)["writes"][:k])) > 0
 
 
@@ -466,7 +498,9 @@ def write_prefix_known(kind: int, k: int) -> bool:
     """Classes of KF-C13-1/2 and KF-C14-2 at store-write granularity: among the ticks of the first k writes there is a step's
     completion whose emitted event has its own TickAddEvent outside them, or a wait_for_event timer was armed and its
     TickWaiterTimeout is not among them (the timer lived only in the dead process' heap)."""
-    kind, k = conc(kind, 0, 3), conc(k, 1, 40)
+    kind, k = conc(kind, 0, NKIND13 - 1), conc(k, 1, 40)
+    if kind == 4:
+        return False          # no timer, no emitted event: neither class applies
     writes = _first_w(kind)["writes"]
     full = native(ticks_in, writes)
     kt = len(native(ticks_in, writes[:k]))
@@ -484,19 +518,20 @@ WMAX13 = 40
 
 
 @obligation(quick=300, thorough=900,
-            partitions_quick=[f"kind == {a} and k <= 12" for a in range(4)] + [f"kind == {a} and k > 12" for a in range(4)],
-            partitions_thorough=[f"kind == {a} and k % 4 == {m}" for a in range(4) for m in range(4)],
+            partitions_quick=[f"kind == {a} and k <= 12" for a in range(5)] + [f"kind == {a} and k > 12" for a in range(5)],
+            partitions_thorough=[f"kind == {a} and k % 4 == {m}" for a in range(5) for m in range(4)],
             what="whole in-process server stack, crash at ANY STORE WRITE: the first life's primitive store writes (handler-row upserts incl. idle "
                  "stamps, tick appends, event appends) are recorded in order; a fresh store gets the first k of them (k symbolic), a fresh stack is "
                  "started over it (service.start -> PersistenceDecorator._on_server_start): the run ends with the same status and result",
-            bounds={"workflows": "chain / chain with one retry (delay 1) / fan-out + collect / wait_for_event(timeout=1) under idle announcement",
+            bounds={"workflows": "chain / chain with one retry (delay 1) / fan-out + collect / wait_for_event(timeout=1) under idle announcement / "
+                                 "wait_for_event answered by a client event (prefixes that contain the persisted answer)",
                     "k": "every prefix of the recorded writes that contains at least one tick (<= 40 writes)"})
 def ob_restart_any_write(kind: int, k: int) -> bool:
     """
-    pre: 0 <= kind <= 3 and 1 <= k <= WMAX13 and k <= n_writes(kind) and prefix_has_tick(kind, k)
+    pre: 0 <= kind <= 4 and 1 <= k <= WMAX13 and k <= n_writes(kind) and prefix_has_tick(kind, k) and answer_persisted(kind, k)
     post: _
     """
-    kind, k = conc(kind, 0, 3), conc(k, 1, WMAX13)
+    kind, k = conc(kind, 0, NKIND13 - 1), conc(k, 1, WMAX13)
     first = _first_w(kind)
     if first["status"] != "completed":
         return False
